@@ -1,0 +1,11 @@
+//go:build verif
+
+package cmd
+
+import "github.com/wormhole-foundation/example-near-light-client/verifier"
+
+// Test-only export for the external verification harness (build tag "verif"): the wrapper circuit
+// exactly as the compile command builds it.
+func VerifNewFixedCircuit(baseDir string) verifier.CircuitFixed {
+	return newFixedCircuit(baseDir)
+}
